@@ -1,6 +1,6 @@
 (* Props/C10.v -- concatenate is the inverse of splitting and refuses non-contiguous pieces. *)
 From Coq Require Import ZArith QArith Qabs List.
-From PB Require Import Model.Ledger Model.Band Model.Concat Proofs.ConcatProofs Proofs.ConcatMore Proofs.ConcatAssoc Proofs.ConcatGroup.
+From PB Require Import Model.Ledger Model.Band Model.Concat Proofs.ConcatProofs Proofs.ConcatMore Proofs.ConcatAssoc Proofs.ConcatGroup Gen.GenConcat Proofs.ConcatGen.
 Import ListNotations.
 Open Scope Z_scope.
 
@@ -122,6 +122,14 @@ Proof. exact reject_label_mismatch. Qed.
 (* Not stated: right-nested grouping of ARBITRARY (not exactly contiguous) pieces -- with tolerances the outcome can legitimately
    differ by which pieces are compared; on exactly contiguous pieces C10_any_grouping covers every grouping. *)
 
+(* tie to the source by translation (T12): at the tolerances the code uses (relative 1e-5), the model IS the function rebuilt from the
+   pieces GENERATED from transforms.concatenate on this run - the bodies of both start-time loops, the frequency-contiguity difference,
+   the off-axis label tolerance, the labels feeding the new centre frequency, the alignment name (the remaining statements are pinned) *)
+Theorem C10_generated : forall eps axis ps, concat eps (1 # 100000) axis ps = concat_gen eps axis ps.
+Proof. exact concat_generated. Qed.
+Theorem C10_generated_align : align_name 1 = gen_concat_align.
+Proof. exact concat_align_generated. Qed.
+
 Print Assumptions C10_split_concat_time.
 Print Assumptions C10_reject_class.
 Print Assumptions C10_reject_time_gap.
@@ -140,3 +148,4 @@ Print Assumptions C10_reject_start_mismatch.
 Print Assumptions C10_reject_length_mismatch.
 Print Assumptions C10_reject_freq_gap_anywhere.
 Print Assumptions C10_reject_label_mismatch.
+Print Assumptions C10_generated.
